@@ -211,6 +211,10 @@ case("F53 finalize_kwargs edited after the lazy result was built", f53, lambda r
 # F54
 case("F54 argmax with a NaN fill on an in-memory array", lambda: groupby_reduce(np.array([1.0, 5, 2, 9, 4, 7]), np.array([0, 0, 1, 1, 2, 2]), func="argmax", fill_value=np.nan, expected_groups=np.array([0, 1, 2, 3]))[0].tolist()[:3], lambda r: r == [1.0, 3.0, 5.0])
 
+# F55
+case("F55 integer dtype= for mean on the flox engine", lambda: groupby_reduce(np.array([1, 2, 3, 4], dtype=np.int8), np.array([0, 0, 1, 1]), func="mean", dtype="int16", engine="flox")[0].tolist(), lambda r: r == [1, 3])
+case("F55 integer dtype= for median (automatic engine)", lambda: groupby_reduce(np.array([1, 2, 3, 4], dtype=np.int8), np.array([0, 0, 1, 1]), func="median", dtype="int16")[0].tolist(), lambda r: r == [1, 3])
+
 bad = 0
 for name, verdict in results:
     print(f"{name:55s} {verdict}")
